@@ -9,8 +9,8 @@ HERE = os.path.dirname(os.path.abspath(__file__))
 CLAIMED = {
     "C16": ("§3 C16",
             "CFG must-pass/ordering automata (go/cfg + go/types) over the fetch protocol, who-may-call and effect-site ownership tables",
-            "Decides the ordering of file-system effects of the cache protocol on every control-flow path of Fetch, downloadDir, downloadZip(1), fetchModFileData, downloadModFile1, writeDiskCache and lockVersion (lock held, post-lock re-check, .partial marker brackets Unzip, temp+close+rename, single flight, artefact ownership, a partial directory left by a crashed fetch is removed before re-extraction unless the post-lock verdict proves there is none). Every crash point lies between two effects whose order is fixed by these rules; it does not execute a crash.",
-            "lockedfile, os.Rename atomicity and modzip.Unzip are trusted; only package mod/modcache is analysed"),
+            "Decides the ordering of file-system effects of the cache protocol on every control-flow path of Fetch, downloadDir, downloadZip(1), fetchModFileData, downloadModFile1, writeDiskCache and lockVersion (lock held, post-lock re-check, .partial marker brackets Unzip, temp+close+rename, single flight, artefact ownership, a partial directory left by a crashed fetch is removed before re-extraction unless the post-lock verdict proves there is none). The lock-free availability test reads the directory before the marker (the reverse of the writer's order) and the marker is kept on a failed extraction. What is renamed into the cache is complete: the blob reader's Close error is checked before the rename, and every reader modregistry.Module hands out goes through a wrapper that compares byte count and digest with the manifest's layer descriptor (defect repaired in /repo, fix: 893c4de — a short body ending in a clean EOF left a truncated zip/module file in the cache for ever). Every crash point lies between two effects whose order is fixed by these rules; it does not execute a crash.",
+            "lockedfile, os.Rename atomicity and modzip.Unzip are trusted; packages mod/modcache and (for the blob readers) mod/modregistry are analysed"),
 }
 
 CLAIMED["C15"] = ("§3 C15",
@@ -25,8 +25,8 @@ CLAIMED["C14"] = ("§3 C14",
 
 CLAIMED["C18"] = ("§3 C18",
     "typestate extraction (state-tracking automaton over go/cfg incl. tagged-switch edges), guard gates, constant folding of done() over the State enum, must-pass ordering, field-write confinement",
-    "Decides the controller's typestate relation (all Task.state assignments with their source-state guards lie within Waiting->Ready->Running->Terminated / Waiting->Terminated; received tasks are Running), that Ready requires isReady() which requires done() of every dependency and done() holds exactly for Terminated, that results are folded and the configuration recomputed before markReady and a failure returns without releasing dependants, that the task goroutine starts after updateTaskValue, writes only Task.err and always ends with the send on taskCh, that the loop's `running` flag (which decides whether it blocks on taskCh) is set exactly for tasks already Running or whose goroutine is started in the same iteration, that Task.Fill extends rather than overwrites a pending result and the pending result is cleared only after it was taken, and that checkCycle guards every initTasks path. It does not decide dependency discovery or equality of the final configuration.",
-    "dep.Visit and Runner implementations are not analysed; only package tools/flow")
+    "Decides the controller's typestate relation (all Task.state assignments with their source-state guards lie within Waiting->Ready->Running->Terminated / Waiting->Terminated; received tasks are Running), that Ready requires isReady() which requires done() of every dependency and done() holds exactly for Terminated, that results are folded and the configuration recomputed before markReady and a failure returns without releasing dependants, that the task goroutine starts after updateTaskValue, writes only Task.err and always ends with the send on taskCh, that the loop's `running` flag (which decides whether it blocks on taskCh) is set exactly for tasks already Running or whose goroutine is started in the same iteration, that Task.Fill extends rather than overwrites a pending result and the pending result is cleared only after it was taken, and that checkCycle guards every initTasks path. Of dependency discovery it decides four structural conditions only: a skipped task releases its dependants, concrete containers still depend, the operand contexts of internal/core/dep that take a value apart (call arguments, for sources, slice subjects) visit everything, marked.markExpr marks the Value of every declaration kind, and getTask re-tags the children of every task whatever its state. It does not decide equality of the final configuration.",
+    "Runner implementations are not analysed; packages tools/flow and internal/core/dep")
 
 CLAIMED["C08"] = ("§3 C08",
     "exhaustiveness of type-switch dispatchers over cue/ast interfaces (go/types implements-relation), field coverage at package and at dispatcher-case granularity with flow-sensitive 'strong use', acquire/release pairing of parser comment states, CFG gates on cmd/cue fmt",
@@ -85,7 +85,7 @@ CLAIMED["C06"] = ("§3 C06",
 
 CLAIMED["C01"] = ("§3 C01",
     "per-case must-pass analysis of the two conjunct dispatchers (unshare or delegation on every path through an accumulating case), CFG gates on shareIfPossible, map-iteration order-leak classification over evaluator/compiler/build/load",
-    "Narrow: decides that every accumulating case of nodeContext.scheduleConjunct / insertValueConjunct excludes structure sharing (n.unshare() or delegation) on every path, that share() is reached only past the noSharing/isShared/no-arcs/no-errors guards and unshare is sticky, that no map iteration in internal/core/adt, internal/core/compile, cue/build and cue/load feeds an unsorted order-sensitive sink, and the decision table of the scalar merge in insertValueConjunct (the first scalar is recorded; a later one of the same priority is compared for equality and never replaces it; only a strictly higher layer priority overrides). It does not decide commutativity, associativity or idempotence of the values computed (scheduler, disjunction cross product, closedness evidence).",
+    "Narrow: decides that every accumulating case of nodeContext.scheduleConjunct / insertValueConjunct excludes structure sharing (n.unshare() or delegation) on every path, that share() is reached only past the noSharing/isShared/no-arcs/no-errors guards and unshare is sticky, that no map iteration in internal/core/adt, internal/core/compile, cue/build and cue/load feeds an unsorted order-sensitive sink, and the decision table of the scalar merge in insertValueConjunct (the first scalar is recorded; a later one of the same priority is compared for equality and never replaces it; only a strictly higher layer priority overrides), and that the `*Top` arm of insertValueConjunct writes no node state other than hasTop, the typo checker's conjunct info and statistics counters, directly or through the methods it calls (`x & _` leaves the state `x` leaves; the defect found — `_` released held-back cyclic conjuncts — was repaired in /repo, fix: 022cc54). It does not decide commutativity, associativity or idempotence of the values computed (scheduler, disjunction cross product, closedness evidence).",
     "order independence of the computed values is value-level and not claimed")
 
 CLAIMED["C03"] = ("§0.6 / §4 C03",
